@@ -464,6 +464,30 @@ def listed_nodes(struct):
     return out
 
 
+def stale_group_parent(struct) -> bool:
+    """some operation with a group relation sits in a layer of its graph that is not the layer below its CURRENT latest member
+    (it was hung when another member ended latest); nested composites included."""
+    a = progs.api()
+    layer = {}
+    for d, nodes in enumerate(struct._circuit_graph.get_branch_iterator()):
+        for n in nodes:
+            op = getattr(n, 'operation', None)
+            if op is not None:
+                layer[id(op)] = d
+    for o in graph_nodes(struct):
+        lk = o.relation_link
+        if isinstance(lk, a.MultiRelationLink) and getattr(lk, '_reference_nodes', None):
+            try:
+                ref = lk.reference_node
+            except RecursionError:
+                ref = None
+            if ref is not None and id(ref) in layer and layer[id(o)] != layer[id(ref)] + 1:
+                return True
+        if isinstance(o, a.CircuitCompositeOperation) and stale_group_parent(o):
+            return True
+    return False
+
+
 def positional_refs(struct):
     """for each expanded leaf: (relation type, index of the referenced leaf in the expansion | 'C<k>' for the k-th
     composite | None | 'ext')."""
@@ -548,6 +572,11 @@ class CopyProbe(Probe):
                                                for o in objs if isinstance(o.relation_link, a.MultiRelationLink))
                     if later and members(lc + cc) < members(lo + co):
                         fl['group_ref_dropped'] = True
+                    # signature of finding R26 (consequence of R23 for copies): an operation with a group relation hangs, in the
+                    # original, under the member that ended latest WHEN IT WAS ADDED; the copy is built now and hangs it under the
+                    # member that ends latest NOW — a different layer, hence a different position in the listing
+                    elif stale_group_parent(orig):
+                        fl['group_parent_stale'] = True
                 fails.append(fl)
             elif [c.nr_of_repetitions for c in co] != [c.nr_of_repetitions for c in cc]:
                 fails.append({'what': 'copy changed a repetition count'})
